@@ -102,6 +102,9 @@ EffectTags(prop, s, e, o) ==
               IF ~one("CONNECT") THEN {Tag(prop, "effect-missing", d)}
               ELSE TagsIf(got("CONNECT")[1].cid # s.cfg.cid \/ got("CONNECT")[1].ka * 10 # s.cfg.ka
                           \/ got("CONNECT")[1].willflag # (s.cfg.will # ""), Tag(prop, "effect-wrong", d))
+                   \* the will the application configured is the will the broker holds
+                   \cup TagsIf(s.cfg.will # "" /\ (got("CONNECT")[1].willtopic # s.cfg.will \/ got("CONNECT")[1].willmsg # "s:will"),
+                               Tag(prop, "effect-wrong-will", d))
          [] e.api \in {"Subscribe", "SubscribePredefined"} ->
               IF ~one("SUBSCRIBE") THEN {Tag(prop, "effect-missing", d)}
               ELSE TagsIf(got("SUBSCRIBE")[1].topic # name \/ got("SUBSCRIBE")[1].rqos # e.qos, Tag(prop, "effect-wrong", d))
